@@ -243,6 +243,39 @@ func c09eval(c c09Case) []ev.Finding {
 		return []ev.Finding{{Sig: "panic:" + ev.SigSafe(fmt.Sprint(p)), Witness: wit, Detail: fmt.Sprint(p) + "\n" + st, Case: c, Rank: c.Shape}}
 	}
 	var out []ev.Finding
+	// the expression that was handed to Reduce is still the caller's expression: under another assignment it must be
+	// worth what a freshly built copy is worth (a Reduce that writes bound values into its argument fails here)
+	if len(all) > 0 {
+		alt := map[string]interface{}{}
+		for i, l := range c.Leaves {
+			if l.Mode == 0 {
+				continue
+			}
+			l2 := l
+			switch l.Kind {
+			case kI:
+				l2.Val = (l.Val + 1) % len(c09I)
+			case kU:
+				l2.Val = (l.Val + 1) % len(c09U)
+			case kF:
+				l2.Val = (l.Val + 1) % 5 // stay clear of NaN, which is never equal to itself
+			case kB:
+				l2.Val = (l.Val + 1) % len(c09B)
+			default:
+				l2.Val = (l.Val + 1) % len(c09S)
+			}
+			alt[fmt.Sprintf("v%d", i)] = l2.value()
+		}
+		fresh, _, _ := c.build()
+		var va, vb interface{}
+		if p, _ := try(func() {
+			ve := influxql.ValuerEval{Valuer: influxql.MapValuer(alt), IntegerFloatDivision: true}
+			va, vb = ve.Eval(e), ve.Eval(fresh)
+		}); p == nil && !sameValue(va, vb) {
+			out = append(out, ev.Finding{Sig: "reduce-changes-its-argument:" + c09sigOf(c), Witness: wit,
+				Detail: fmt.Sprintf("after Reduce(e, %v) the expression e is worth %T(%v) under %v; a fresh copy is worth %T(%v): e is now %s", r1, va, va, alt, vb, vb, e), Case: c, Rank: c.Shape})
+		}
+	}
 	if !sameValue(v1, v2) {
 		// cause class: an unsigned variable bound at Reduce time?
 		sig := "value-differs:" + c09sigOf(c)
